@@ -58,11 +58,11 @@ NAMES_ALL = ("x", "y", "z")
 # ------------------------------------------------------------------ chain -> sources
 
 
-def template_source(k: int, n_templates: int, defs: tuple[str, ...], names: tuple[str, ...], outer: bool) -> str:
+def template_source(k: int, n_templates: int, defs: tuple[str, ...], names: tuple[str, ...], outer: bool, prefix: str = "t") -> str:
     """Source of template k (0 = leaf) of a chain of n templates."""
     parts = []
     if k < n_templates - 1:
-        parts.append("{% extends 't" + str(k + 1) + "' %}")
+        parts.append("{% extends '" + prefix + str(k + 1) + "' %}")
     if outer:
         parts.append(f"<out{k}>")
 
@@ -117,16 +117,18 @@ class Required(Exception):
     pass
 
 
-def model_render(chain: list[tuple[tuple[str, ...], bool]], names: tuple[str, ...]) -> tuple[str, Any]:
-    """chain[k] = (defs, outer) for template k (0 = leaf). Returns ('ok', text) | ('required', name) | ('unspecified', why)."""
+def model_render(chain: list[tuple[tuple[str, ...], bool]], names: tuple[str, ...], base_index: int = 0) -> tuple[str, Any]:
+    """chain[k] = (defs, outer) for template k (0 = leaf). Returns ('ok', text) | ('required', name).
+    `base_index` is added to k in the text labels (used to render the tail of a longer chain on its own)."""
     n = len(chain)
+    B = base_index
     stacks: dict[str, list[int]] = {nm: [k for k in range(n) if chain[k][0][i] != "absent"] for i, nm in enumerate(names)}
 
     def body(k: int, i: int, level: int) -> str:
         """Body of the definition of names[i] in template k; `level` = its index in the stack of that name."""
         defs = chain[k][0]
         name, mode = names[i], defs[i]
-        text = f"[{k}.{name}]"
+        text = f"[{k + B}.{name}]"
         sup = ""
         if mode in ("super-before", "super-after"):
             st = stacks[name]
@@ -154,7 +156,7 @@ def model_render(chain: list[tuple[tuple[str, ...], bool]], names: tuple[str, ..
     root_defs, root_outer = chain[n - 1]
     out = []
     if root_outer:
-        out.append(f"<out{n - 1}>")
+        out.append(f"<out{n - 1 + B}>")
     try:
         for i, _name in enumerate(names):
             if root_defs[i] in ("absent", "nested"):
@@ -164,18 +166,42 @@ def model_render(chain: list[tuple[tuple[str, ...], bool]], names: tuple[str, ..
     except Required as e:
         return ("required", str(e))
     if root_outer:
-        out.append(f"</out{n - 1}>")
+        out.append(f"</out{n - 1 + B}>")
     return ("ok", "".join(out))
 
 
 # ------------------------------------------------------------------ running the implementation
 
-ENTRIES = ("sync", "async", "include", "render", "caching-twice", "caching-async-twice")
+ENTRIES = ("sync", "async", "include", "render", "caching-twice", "caching-async-twice", "include-then-text", "render-then-text-async",
+           "include-in-loop", "include-twice-then-root", "include-twice-then-root-async")
+
+# entries that wrap the chain in a host template: (host source with @ = leaf name, # = root name, how to build the expectation)
+HOSTS = {
+    "include-then-text": "<{% include '@' %}>AFTER",
+    "render-then-text-async": "<{% render '@' %}>AFTER",
+    "include-in-loop": "{% for i in (1..2) %}{% include '@' %};{% endfor %}END",
+    "include-twice-then-root": "{% include '@' %}|{% include '@' %}|{% include '#' %}",
+    "include-twice-then-root-async": "{% include '@' %}|{% include '@' %}|{% include '#' %}",
+}
 
 
-def impl_render(sources: dict[str, str], entry: str) -> tuple[str, Any]:
+def host_expectation(entry: str, want: str, root_alone: str) -> str:
+    if entry in ("include-then-text", "render-then-text-async"):
+        return "<" + want + ">AFTER"
+    if entry == "include-in-loop":
+        return (want + ";") * 2 + "END"
+    return want + "|" + want + "|" + root_alone
+
+
+def impl_render(sources: dict[str, str], entry: str, leaf: str = "t0", root: str = "t0") -> tuple[str, Any]:
     try:
         with cpu_budget(10.0):
+            if entry in HOSTS:
+                env = Environment(loader=DictLoader(sources))
+                host = env.from_string(HOSTS[entry].replace("@", leaf).replace("#", root))
+                if entry.endswith("async"):
+                    return _async(host.render_async())
+                return ("ok", host.render())
             if entry == "sync":
                 env = Environment(loader=DictLoader(sources))
                 return ("ok", env.get_template("t0").render())
@@ -275,12 +301,22 @@ def check_chain(chain: list, names: tuple[str, ...], res: ShardResult | None, en
     n = len(chain)
     sources = {f"t{k}": template_source(k, n, chain[k][0], names, chain[k][1]) for k in range(n)}
     want = model_render(chain, names)
+    root_alone = model_render(chain[-1:], names, base_index=n - 1)
     for entry in entries:
-        got = impl_render(dict(sources), entry)
+        got = impl_render(dict(sources), entry, "t0", f"t{n - 1}")
         if res is not None:
             res.evaluations += 1
             res.traces_validated += 1
             res.outcomes.add(h64([got[0], entry]))
+        if entry in HOSTS:
+            uses_root = "then-root" in entry
+            if want[0] == "ok" and (root_alone[0] == "ok" or not uses_root):
+                expect = host_expectation(entry, want[1], root_alone[1] if uses_root else "")
+                if got != ("ok", expect):
+                    out.append((f"C08:wrong-page:{entry}" if got[0] == "ok" else f"C08:ok-vs-{got[0]}:{entry}", {"sources": sources, "entry": entry, "names": list(names), "chain": [[list(d), o] for d, o in chain]}, expect, got))
+            elif got[0] not in ("required", "inheritance-error"):
+                out.append((f"C08:required-vs-{got[0]}:{entry}", {"sources": sources, "entry": entry, "names": list(names), "chain": [[list(d), o] for d, o in chain]}, "required", got))
+            continue
         ok = (want[0] == "ok" and got == want) or (want[0] == "required" and got[0] == "required")
         if not ok:
             kind = "wrong-page" if want[0] == "ok" and got[0] == "ok" else f"{want[0]}-vs-{got[0]}"
@@ -290,6 +326,60 @@ def check_chain(chain: list, names: tuple[str, ...], res: ShardResult | None, en
         if overrides:
             res.nontrivial.add(h64(sources))
     return out
+
+
+# ------------------------------------------------------------------ a chain included inside an overriding block of another chain
+
+LAYOUT = "{% block a %}A0{% endblock %}|{% block b %}B0{% endblock %}|{% block c %}C0{% endblock %}"
+PAGE = "{% extends 'layout' %}{% block a %}[{% include 'u0' %}]{% endblock %}{% block b %}B1{{ block.super }}{% endblock %}"
+
+
+def nested_space(tier: str) -> list[tuple[tuple[str, ...], int]]:
+    out = []
+    for names in (("w", "v"), ("b", "a")):
+        per, size = chains_of(2, names, False)
+        for idx in range(size):
+            out.append((names, idx))
+    return out
+
+
+def check_nested(names: tuple[str, ...], idx: int, res: ShardResult | None) -> list[tuple[str, Any, Any, Any]]:
+    out: list[tuple[str, Any, Any, Any]] = []
+    per, _size = chains_of(2, names, False)
+    chain = chain_at(per, 2, idx)
+    sources = {f"u{k}": template_source(k, 2, chain[k][0], names, chain[k][1], prefix="u") for k in range(2)}
+    sources.update(layout=LAYOUT, page=PAGE)
+    inner = model_render(chain, names)
+    for entry in ("sync", "async"):
+        env = Environment(loader=DictLoader(dict(sources)))
+        try:
+            with cpu_budget(10.0):
+                got = ("ok", env.get_template("page").render()) if entry == "sync" else _async(_get_render_named(env, "page"))
+        except TimeBudget:
+            got = ("timeout", None)
+        except RequiredBlockError:
+            got = ("required", None)
+        except TemplateInheritanceError as e:
+            got = ("inheritance-error", str(e.message)[:60])
+        except LiquidError as e:
+            got = ("liquid", type(e).__name__)
+        if res is not None:
+            res.evaluations += 1
+            res.traces_validated += 1
+            res.nontrivial.add(h64([names, idx, entry]))
+        case = {"sources": sources, "entry": entry, "names": list(names), "index": idx}
+        if inner[0] == "ok":
+            want = ("ok", "[" + inner[1] + "]|B1B0|C0")
+            if got != want:
+                out.append((f"C08:nested-chain:{'wrong-page' if got[0] == 'ok' else got[0]}:{'same-block-names' if names[0] == 'b' else 'distinct-block-names'}", case, want, got))
+        elif got[0] not in ("required", "inheritance-error"):
+            out.append((f"C08:nested-chain:required-vs-{got[0]}", case, "required", got))
+    return out
+
+
+async def _get_render_named(env: Any, name: str) -> str:
+    t = await env.get_template_async(name)
+    return await t.render_async()
 
 
 # ------------------------------------------------------------------ error configurations
@@ -382,6 +472,11 @@ def plan(tier: str, seed: int):
     for lo, hi in chunks(len(errs), 16):
         shards.append(("errors", tier, lo, hi))
     subs["error-configurations"] = len(errs)
+    nested = nested_space(tier)
+    for lo, hi in chunks(len(nested), 16):
+        shards.append(("nested", tier, lo, hi))
+    subs["nested-chains"] = len(nested)
+    total += len(nested)
     meta = {"space_size": total + len(errs), "subspaces": subs, "bounds": {"entries": list(ENTRIES), "modes": list(MODES)}}
     return shards, meta
 
@@ -395,7 +490,7 @@ def run_shard(shard) -> ShardResult:
         for idx in range(lo, hi):
             chain = chain_at(per, depth, idx)
             res.cases += 1
-            entries = ENTRIES if (idx % 7 == 0 or size < 20000) else ENTRIES[:2]
+            entries = ENTRIES if (idx % 7 == 0 or size < 20000) else (ENTRIES[:2] + (ENTRIES[6 + idx % 5],))
             for sig, case, exp, obs in check_chain(chain, names, res, entries):
                 res.violation(sig, {"part": "chain", "tier": tier, **case}, exp, obs, repro=_repro(case["sources"], case["entry"]))
             res.states.add(h64([depth, names, idx]))
@@ -403,6 +498,15 @@ def run_shard(shard) -> ShardResult:
         if lo == 0:
             ch = chain_at(per, depth, min(size - 1, 12345))
             res.samples.append({"chain": {f"t{k}": template_source(k, depth, ch[k][0], names, ch[k][1]) for k in range(depth)}, "model": model_render(ch, names)})
+    elif shard[0] == "nested":
+        _, tier, lo, hi = shard
+        nested = nested_space(tier)
+        for i in range(lo, hi):
+            res.cases += 1
+            for sig, case, exp, obs in check_nested(nested[i][0], nested[i][1], res):
+                res.violation(sig, {"part": "nested", "tier": tier, **case}, exp, obs, repro=_repro(case["sources"], case["entry"]).replace("'t0'", "'page'"))
+            res.states.add(h64(["nested", i]))
+        res.transitions = res.evaluations
     else:
         _, tier, lo, hi = shard
         errs = error_cases()
@@ -425,6 +529,11 @@ def _repro(sources: dict[str, str], entry: str) -> str:
 
 def replay(case: dict[str, Any]) -> list[dict[str, Any]]:
     res = ShardResult()
+    if case["part"] == "nested":
+        for sig, c, exp, obs in check_nested(tuple(case["names"]), case["index"], None):
+            if c["entry"] == case["entry"]:
+                res.violation(sig, case, exp, obs)
+        return res.violations
     if case["part"] == "chain":
         names = tuple(case["names"])
         chain = [(tuple(d), o) for d, o in case["chain"]]
